@@ -412,7 +412,7 @@ var $methodSet = typ => {
     }
     var base = Object.create(null);
 
-    var isPtr = (typ.kind === $kindPtr);
+    var isPtr = (typ.kind === $kindPtr && !typ.named);
     if (isPtr && typ.elem.kind === $kindInterface) {
         typ.methodSetCache = [];
         return [];
